@@ -42,6 +42,9 @@ pub enum TxT {
 	ProofBitFlip,
 	DropOutput,
 	DropInput,
+	/// (protocol-2 input form) one input listed a second time under the OTHER feature byte: two distinct
+	/// entries for one commitment, so the input side of the balance counts it twice
+	InputTwiceUnderOtherFeatures,
 }
 
 pub fn tx_catalogue() -> Vec<TxT> {
@@ -74,6 +77,7 @@ pub fn tx_catalogue() -> Vec<TxT> {
 		ProofBitFlip,
 		DropOutput,
 		DropInput,
+		InputTwiceUnderOtherFeatures,
 	]
 }
 
@@ -303,6 +307,17 @@ pub fn tamper_tx(spec: &TxSpec, t: TxT, pick: usize) -> Option<(Transaction, boo
 				return None;
 			}
 			is.remove(pick % is.len());
+			Some((rebuild(&tx, is, tx.outputs().to_vec(), tx.kernels().to_vec()), false))
+		}
+		InputTwiceUnderOtherFeatures => {
+			let mut is = inputs_of(&tx);
+			if is.is_empty() {
+				return None;
+			}
+			let i = pick % is.len();
+			let other = if is[i].features.is_coinbase() { OutputFeatures::Plain } else { OutputFeatures::Coinbase };
+			let c = is[i].commitment();
+			is.push(Input::new(other, c));
 			Some((rebuild(&tx, is, tx.outputs().to_vec(), tx.kernels().to_vec()), false))
 		}
 	}
@@ -595,6 +610,10 @@ pub fn tampered_block(
 			}
 			let i = pick % specs.len();
 			let tt = tx_catalogue()[ci as usize];
+			if tt == TxT::InputTwiceUnderOtherFeatures {
+				// a block is assembled with commitment-only inputs here: the pair would collapse into a plain duplicate
+				return Ok(None);
+			}
 			if tt == TxT::OffsetNotAScalar {
 				// a block has no per-transaction offsets: the builder folds them into the header's total, and the
 				// non-scalar one contributes nothing — the block would simply be valid (block-level: KernelOffsetNotAScalar)
